@@ -175,7 +175,8 @@ class FromBits(Contract):
     def configs(self, tier):
         # entries="small": from_bits is linear and does not ask its entries to be bits (its callers hand it products
         # and sums): entries in [0, 4) overlap each other's positions
-        return [dict(mode="plain", n=n) for n in (0, 1, 3, 8)] + [dict(mode=m, n=n, entries="small") for m in ("plain", "g0") for n in (2, 3)]
+        # n=20: more bits than the DEFAULT bitlength (16) -- a width is whatever the caller passes, not the default
+        return [dict(mode="plain", n=n) for n in (0, 1, 3, 8, 20)] + [dict(mode=m, n=n, entries="small") for m in ("plain", "g0") for n in (2, 3)]
 
     def setup(self, c, cfg):
         apply_mode(c, cfg["mode"])
@@ -1176,11 +1177,14 @@ class _Bitwise(Contract):
                     if n == 6 and k == "sk":
                         continue
                     out.append(dict(mode=m, kind=k, bits=n))
+        # a PLAIN operand at or beyond 2^bitlength: the plain-int path has no width, Python's result is the answer
+        n = 3 if tier == "quick" else 6
+        out += [dict(mode="plain", kind="sk", bits=n, plain=v) for v in ((1 << n), (1 << n) + 5, (3 << n) + 1)]
         return out
 
     def setup(self, c, cfg):
         apply_mode(c, cfg["mode"], bitlength=cfg["bits"])
-        y = c.operand("y") if cfg["kind"] == "ss" else 5          # int operand: concrete (a width-free symbolic & is not encodable)
+        y = c.operand("y") if cfg["kind"] == "ss" else cfg.get("plain", 5)          # int operand: concrete (a width-free symbolic & is not encodable)
         return getattr(c.LinComb, self.name.rsplit(".", 1)[1]), (c.operand("x"), y), {}
 
     def pre(self, c, x, y):
@@ -1205,11 +1209,17 @@ class _Bitwise(Contract):
         n = c.bitlength
         xv, yv = c.v(x), _ov(c, y)
         valid = And(xv >= 0, xv < (1 << n), yv >= 0, yv < (1 << n))
-        return {
+        d = {
             "V.value": Implies(valid, Eq(c.v(r), self.spec(c, xv, yv))),
             "V.inv": c.inv(r),
             "S.unique": Implies(And(on(c), _tied(c, x, y), valid), c.eva(r) == c.v(r) % c.p),
         }
+        if isinstance(y, int) and not isinstance(y, bool):
+            import operator
+            op = {"__and__": operator.and_, "__or__": operator.or_, "__xor__": operator.xor}[self.name.rsplit(".", 1)[1]]
+            # the plain-operand path: Python's own result on the value, for every non-negative value and ANY plain int
+            d["V.python_plain_operand"] = Implies(And(isg(c), xv >= 0), Eq(c.v(r), term(op(lift(xv), y))))
+        return d
 
     def key(self, c, x, y):
         return (c.bitlength,)
